@@ -18,7 +18,7 @@ def chk(i, cat, text, note, tech, ref):
     CHECKS[i] = (cat, text, note, tech, ref)
 
 chk("C08", "exploration",
-    "Seeded search over histories of aborted/accepted parses, API range failures, context free/re-init and two interleaved clients, followed by probe parses (also rejected and accepted probes into a re-used context: errors inside sections an earlier parse opened, deprecated / dropped options assigned again); every history is executed as is, again with all process-global library state (scanner image, cfg_yylval, errno) reset before each API call, per-client solo, and each probe alone in a fresh image; any difference in return code, diagnostics or canonical dump is a violation. Sampling, not proof.",
+    "Seeded search over histories of aborted/accepted parses, API range failures, context free/re-init and two interleaved clients, followed by probe parses (also rejected and accepted probes into a re-used context: errors inside sections an earlier parse opened, deprecated / dropped options assigned again); every history is executed as is, again with all process-global library state (scanner image, cfg_yylval, errno) reset before each API call, per-client solo, and each probe alone in a fresh image; any difference in return code, diagnostics (file, line and message text) or canonical dump is a violation. A third of the plans add a re-entry step: while a text is parsed, the first callback releases another context, parses into another one, or creates, fills and releases a temporary one - the outcome for the context being parsed must equal the run without that action. A text or value failing its range check must leave the context's values untouched. Sampling, not proof.",
     "Trusts the executor's canonical dump (public getters only) and the process-image restart (validated by the determinism self-test and by fresh-process replay of every violation). Event texts and probes are a fixed catalogue.",
     "deterministic simulation: seeded history/schedule search with differential oracles (O-scrub, O-fresh, O-solo)", "7/C08")
 
